@@ -301,7 +301,20 @@ def recur_rule(ctx, prog, reach, syn):
             rec_i = [i for i, s_ in enumerate(blk["stmts"]) if s_.get("k") == "exprstmt" and strip(s_["e"]).get("k") == "mcall" and strip(s_["e"])["method"] == "build" and unparse(strip(strip(s_["e"])["recv"])) == "builder"]
             if not rec_i:
                 continue
-            guard_i = [i for i, s_ in enumerate(srcs) if re.search(r"if builder\.text\.is_none\(\)\s*\{\s*return Err\(", s_) or re.search(r"builder\.text\.is_none\(\).*return Err", s_)]
+            def is_guard(st_):
+                # `if builder.text.is_none() { return Err(..) }`: the test alone or as one side of an `||` - a conjunction with
+                # anything else lets a text-less builder through
+                e_ = strip(st_["e"]) if st_.get("k") == "exprstmt" else None
+                if not e_ or e_.get("k") != "if" or not any(x.get("k") == "return" and "Err" in unparse(x) for x in walk(e_["then"])):
+                    return False
+
+                def disjuncts(c_):
+                    c_ = strip(c_)
+                    if c_.get("k") == "binary" and c_.get("op") == "||":
+                        return disjuncts(c_["left"]) + disjuncts(c_["right"])
+                    return [c_]
+                return any(unparse(d_).replace(" ", "") == "builder.text.is_none()" for d_ in disjuncts(e_["cond"]))
+            guard_i = [i for i, s_ in enumerate(blk["stmts"]) if is_guard(s_)]
             r.hit("build:include-guard")
             if guard_i and min(guard_i) < min(rec_i):
                 okc = True
